@@ -33,14 +33,16 @@ PanicEscapes(cfg) ==
     \/ (MethodRuns(cfg) /\ cfg.method = "panic" /\ ~cfg.recovery)
 
 \* ---- state: cfg + requests -------------------------------------------------------------------
-MInit(cfg) == [cfg |-> cfg, reqs |-> <<>>]
+\* outer: the scope the incoming request context already carries (an application-level scope), if any
+MInit(cfg) == [cfg |-> cfg, reqs |-> <<>>, outer |-> IF "outer" \in DOMAIN cfg /\ cfg.outer THEN "app" ELSE NONE]
 ReqIds(ms) == DOMAIN ms.reqs
 OwnerOfScope(ms, sid) == {r \in ReqIds(ms) : ms.reqs[r].scope = sid}
 
 SeeScope(rq, sid, pid) == [rq EXCEPT !.scope = IF @ = NONE THEN sid ELSE @, !.probe = IF @ = 0 THEN pid ELSE @]
 
 MApply(ms, e) ==
-    IF e.ev = "req" THEN [ms EXCEPT !.reqs = (e.rq :> NewReq) @@ @]
+    IF e.ev = "outer" THEN [ms EXCEPT !.outer = e.scope]
+    ELSE IF e.ev = "req" THEN [ms EXCEPT !.reqs = (e.rq :> NewReq) @@ @]
     ELSE IF e.ev = "mw" /\ e.rq \in ReqIds(ms) THEN
         [ms EXCEPT !.reqs = [@ EXCEPT ![e.rq] = [SeeScope(@, e.scope, e.probe) EXCEPT !.mws = e.i]]]
     ELSE IF e.ev = "handler" /\ e.rq \in ReqIds(ms) THEN
@@ -64,6 +66,7 @@ MG(name, ok) == [name |-> name, tags |-> {"C16"}, ok |-> ok, kf |-> NONE]
 SeesOwnScope(ms, e) ==
     LET rq == ms.reqs[e.rq] IN
     /\ e.scope # NONE /\ e.probe # 0
+    /\ e.scope # ms.outer                                      \* a fresh scope, not one the request arrived with
     /\ (rq.scope = NONE \/ rq.scope = e.scope)
     /\ (rq.probe = 0 \/ rq.probe = e.probe)                     \* one scoped instance per request
     /\ \A r \in ReqIds(ms) \ {e.rq} : ms.reqs[r].scope # e.scope /\ ms.reqs[r].probe # e.probe
